@@ -27,12 +27,21 @@ def main():
         try:
             mod = importlib.import_module(job["module"])
             harness = mod.HARNESSES[job["harness"]](job["params"])
-            res = driver.explore(
-                harness,
-                seed=job.get("seed", 0),
-                per_path_timeout=job.get("per_path_timeout", 30.0),
-                budget_s=job.get("budget_s", 600.0),
-            )
+            kw = dict(seed=job.get("seed", 0), per_path_timeout=job.get("per_path_timeout", 30.0),
+                      budget_s=job.get("budget_s", 600.0))
+            can_restrict = hasattr(harness, "restrict_domain") and not job["params"].get("domain")
+            res = driver.explore(harness, abort_on_enumeration=can_restrict, **kw)
+            if can_restrict and not res["exhausted"] and (res["enumerating"] or _hot(res)):
+                # DESIGN 2.7: a hashing site realises this cell -> finite stated alphabet
+                first = res
+                job["params"] = dict(job["params"], domain="finite")
+                harness = mod.HARNESSES[job["harness"]](job["params"])
+                res = driver.explore(harness, **kw)
+                res["restricted_after"] = {"paths": first["paths"], "tree_stats": first["tree_stats"], "wall_s": first["wall_s"]}
+                res["queries"] += first["queries"]
+                res["solver_s"] += first["solver_s"]
+                # candidates found over the unrestricted domain are still candidates
+                res["candidates"].extend(first["candidates"])
             res["functions"] = _functions(harness, res) if job.get("profile") else {}
             res["ok"] = True
         except BaseException as exc:  # noqa
@@ -42,6 +51,10 @@ def main():
         res["srcload"] = _srcstats()
         out.write(json.dumps(res, default=_default) + "\n")
         out.flush()
+
+
+def _hot(res):
+    return [k for k, n in (res.get("tree_stats") or {}).items() if k.startswith("realize_") and n >= 4]
 
 
 def _default(o):
